@@ -284,6 +284,9 @@ func discharge(vc *FnVC, k int, timeoutSec int, thorough bool) (SolveResult, map
 				best = r
 				if !thorough {
 					cancel()
+				} else {
+					// thorough: the other back ends get a grace period to agree or disagree, then stop
+					time.AfterFunc(time.Duration(10+3*r.Secs)*time.Second, cancel)
 				}
 			} else if best.Answer != r.Answer {
 				best = SolveResult{Answer: "disagree", Solver: best.Solver + " vs " + r.Solver, Output: best.Output}
